@@ -655,7 +655,9 @@ class PrecipitateModel (PrecipitateBase):
 
                 self.growth[p] = np.zeros(len(self.PBM[p].PSDbounds))
                 if self.numberOfElements == 1:
-                    if addedIndices is None:
+                    #If no size class was stable when the table was built, then there are no valid compositions to extend from
+                    #   (extending would leave the lower part of the table at zero), so rebuild the table as well
+                    if addedIndices is None or self.RdrivingForceIndex[p]+1 >= len(self.PSDXalpha[p]):
                         #This is very slow to do
                         self._createLookupBinary(self.pData.temperature[self.pData.n])
                     else:
